@@ -61,7 +61,7 @@ pub fn helix_points(p: [f64; 6], ts: &[f64]) -> Vec<SpacePoint> {
     ts.iter().map(|t| sp_xyz(p[3] * (t + p[4]).cos() + p[0], p[3] * (t + p[4]).sin() + p[1], p[5] / (2.0 * PI) * t + p[2])).collect()
 }
 
-pub const FAMILIES: [&str; 21] = [
+pub const FAMILIES: [&str; 22] = [
     "helix with special pitch",
     "collinear ray through the origin",
     "collinear on the x axis",
@@ -83,6 +83,7 @@ pub const FAMILIES: [&str; 21] = [
     "few distinct points repeated",
     "curler inside the drift volume with a gap in its hits",
     "radii 1e-16 m apart in chains, z unrelated",
+    "track stub entirely inside the inner cathode or entirely beyond the wires",
 ];
 // (the second line: values on either side of powers of f64::EPSILON - 4.9e-32, 2.2e-16, 1.49e-8, 6.06e-6, 1.22e-4 - where a
 // guard written on h^2, h^3 or sqrt(h) instead of |h| would sit)
@@ -208,6 +209,14 @@ pub fn family(rng: &mut Rng, fam: usize, n: usize) -> Vec<SpacePoint> {
             let k = 3 + rng.usize(3);
             let base: Vec<SpacePoint> = (0..k).map(|_| sp(rng.range(0.06, 0.24), rng.range(-0.3, 0.3), z0 + rng.range(-0.05, 0.05))).collect();
             (0..n).map(|_| base[rng.usize(k)]).collect()
+        }
+        21 => {
+            // no hit between the cathodes (0.1092 m .. 0.19 m): a stub at r = 5..10.9 cm or at r = 19.1..25 cm
+            let (lo, hi) = if rng.bool() { (0.05, 0.1091) } else { (0.1901, 0.25) };
+            let phi = rng.range(-PI, PI);
+            let slope = rng.range(-1.0, 1.0);
+            let curl = rng.range(-2.0, 2.0);
+            (0..n).map(|i| { let f = i as f64 / (n - 1).max(1) as f64; let r = lo + (hi - lo) * f; sp(r, phi + curl * (r - lo), (z0 + slope * (r - lo)).clamp(-1.3, 1.3)) }).collect()
         }
         20 => {
             // hits whose radii differ by about 1e-16 m from one to the next (less than f64::EPSILON pairwise, more than
